@@ -9,6 +9,12 @@ RealArr = z3.ArraySort(Int, Real)
 sumr = z3.Function("sumr", RealArr, Int, Real)  # sumr(f, n) = f[0] + ... + f[n-1]
 sum_diff = z3.Function("sum_diff", RealArr, RealArr, Int, Int)  # skolem: a position where f and g differ (if any)
 expit = z3.Function("expit", Real, Real)
+sq = z3.Function("sq", Real, Real)  # x ** 2 as an opaque function (keeps VCs linear); facts: sq(x) >= 0, sq(0) = 0
+
+
+def sq_axioms():
+    x = z3.Real("x!sq")
+    return [z3.ForAll([x], z3.And(sq(x) >= 0, z3.Implies(x == 0, sq(x) == 0)), patterns=[sq(x)])]
 
 
 def sumr_axioms():
@@ -17,7 +23,8 @@ def sumr_axioms():
     d = sum_diff(f, g, n)
     return [
         z3.ForAll([f], sumr(f, 0) == 0, patterns=[sumr(f, 0)]),
-        z3.ForAll([f, n], z3.Implies(n >= 0, sumr(f, n + 1) == sumr(f, n) + z3.Select(f, n)), patterns=[sumr(f, n + 1)]),
+        # (the unfolding sumr(f, n+1) = sumr(f, n) + f[n] is NOT installed as a quantified axiom: its trigger loops;
+        #  contracts instantiate it explicitly where an induction step needs it)
         # congruence (proved by SMT induction, props lemma `sum_cong`): pointwise-equal prefixes have equal sums
         z3.ForAll([f, g, n], z3.Or(z3.And(d >= 0, d < n, z3.Select(f, d) != z3.Select(g, d)), sumr(f, n) == sumr(g, n)),
                   patterns=[z3.MultiPattern(sumr(f, n), sumr(g, n))]),
@@ -80,3 +87,87 @@ def _repeat(i, args, kw, node, fr):
 
 
 TRUSTED["real arithmetic"] = "floating point treated as mathematical reals; NaN/inf not modelled on this path"
+
+
+# ------------------------------------------------------------------ means / variances (spec functions shared with contracts)
+A2 = z3.ArraySort(Int, RealArr)
+row_tot = z3.Function("row_tot", A2, Int, RealArr)  # row_tot(A, m)[e] = sumr(A[e], m)
+dev2 = z3.Function("dev2", RealArr, Int, RealArr)  # dev2(v, n)[e] = (v[e] - mean(v, n))^2
+scaled = z3.Function("scaled", RealArr, Real, RealArr)  # scaled(v, c)[e] = v[e] / c
+
+
+def mean1(v, n):
+    return sumr(v, n) / z3.ToReal(n)
+
+
+def var1(v, n):
+    return sumr(dev2(v, n), n) / z3.ToReal(n)
+
+
+def mean_axioms(with_dev2=False):
+    """dev2's definition (squared deviations: nonlinear) is only handed to the proofs that need it (var_cong lemma);
+    elsewhere variance is used through the lemma, keeping the nonlinear facts out of the VC"""
+    A, v = z3.Const("A!mx", A2), z3.Const("v!mx", RealArr)
+    m, n, e = z3.Ints("m!mx n!mx e!mx")
+    c = z3.Real("c!mx")
+    out = [z3.ForAll([A, m, e], z3.Select(row_tot(A, m), e) == sumr(z3.Select(A, e), m), patterns=[z3.Select(row_tot(A, m), e)]),
+           z3.ForAll([v, c, e], z3.Select(scaled(v, c), e) == z3.Select(v, e) / c, patterns=[z3.Select(scaled(v, c), e)])]
+    if with_dev2:
+        out.append(z3.ForAll([v, n, e], z3.Select(dev2(v, n), e) == sq(z3.Select(v, e) - mean1(v, n)),
+                             patterns=[z3.Select(dev2(v, n), e)]))
+    return out
+
+
+def install_means(i):
+    install_sums(i)
+    if i.ctx.ghost.get("_means_installed"):
+        return
+    i.ctx.ghost["_means_installed"] = True
+    for ax in mean_axioms():
+        i.ctx.assume(ax)
+
+
+@model("numpy.ndarray.mean", "mean(): sum of all elements / count; mean(axis=1)[e] = row sum / n_cols  (reals; count must be >= 1)")
+def _mean(i, args, kw, node, fr):
+    a = args[0]
+    check_live(a, node)
+    axis = kw.get("axis", args[1] if len(args) > 1 else None)
+    if a.elem_sort != Real:
+        raise Unsupported("mean of %s array" % a.elem_sort, node)
+    install_means(i)
+    if a.ndim == 2:
+        r, c = to_z3(a.shape[0], Int), to_z3(a.shape[1], Int)
+        if axis is None:
+            i.safe("mean_of_empty", z3.And(r >= 1, c >= 1), node)
+            return sumr(row_tot(a.data, c), r) / z3.ToReal(r * c)
+        if axis in (1, -1):
+            i.safe("mean_of_empty", c >= 1, node)
+            return define1(i, r, Real, lambda k: sumr(z3.Select(a.data, k), c) / z3.ToReal(c), "rowmean")
+        raise Unsupported("mean(axis=%r)" % (axis,), node)
+    n = to_z3(a.shape[0], Int)
+    i.safe("mean_of_empty", n >= 1, node)
+    return mean1(a.data, n)
+
+
+FUNCS["numpy.mean"] = _mean
+TRUSTED["numpy.mean"] = "np.mean = sum / count over the reals"
+
+
+@model("numpy.var", "np.var(v) = mean of squared deviations from the mean (population variance), reals")
+def _var(i, args, kw, node, fr):
+    a = args[0]
+    check_live(a, node)
+    if a.ndim != 1 or a.elem_sort != Real or kw:
+        raise Unsupported("np.var of non 1-D real array / with options", node)
+    install_means(i)
+    n = to_z3(a.shape[0], Int)
+    i.safe("var_of_empty", n >= 1, node)
+    i.ctx.ghost.setdefault("var_args", []).append(a)
+    return var1(a.data, n)
+
+
+def var_cong(v, w, n):
+    """lemma (proved by SMT from sum congruence, see props/C20): arrays equal on [0,n) have equal variance"""
+    e = z3.Int("e!vc")
+    return z3.Implies(z3.And(n >= 1, z3.ForAll([e], z3.Implies(z3.And(e >= 0, e < n), z3.Select(v, e) == z3.Select(w, e)))),
+                      var1(v, n) == var1(w, n))
